@@ -261,10 +261,10 @@ def run(prop, tier, seed, spec, known, scratch, only, replay, t0):
                 problems.append("%s: %s (x%d)" % (hr["name"], k, n))
         if hr.get("inconclusive"):
             problems.append("%s: %d obligations inconclusive (solver unknown): %s" % (
-                hr["name"], hr["inconclusive"], [r for r in hr.get("reach", []) if r.startswith("inconclusive:")]))
+                hr["name"], hr["inconclusive"], [r for r in (hr.get("reach") or []) if r.startswith("inconclusive:")]))
         if hr.get("missing_reach"):
             problems.append("%s: vacuity: markers never reached: %s" % (hr["name"], hr["missing_reach"]))
-        if not any(r.startswith("assert:") for r in hr.get("reach", [])) and not meta[hr["name"]].get("no_assert"):
+        if not any(r.startswith("assert:") for r in (hr.get("reach") or [])) and not meta[hr["name"]].get("no_assert"):
             problems.append("%s: vacuity: no assertion reached on any feasible path" % hr["name"])
         # reachability witness: replay one sample natively, it must run to the end
         for s in (hr.get("samples") or [])[:1]:
